@@ -87,3 +87,93 @@ def tok_str(t):
         return json.dumps(t)
     except Exception:
         return json.dumps(t)
+
+
+def default_classify(prop):
+    def classify(p, v, out):
+        """narrow case key of a rejected program: family + kind of mismatch + source hash"""
+        if v.get("at", 0) == -1:
+            return "%s:%s:%s" % (prop, p["fam"], v.get("why"))
+        exp, got = v.get("exp"), v.get("got")
+        kind = "value"
+        if v.get("at") == 0 and isinstance(exp, list) and isinstance(got, list) and exp and got and exp[0] != got[0]:
+            kind = "%s-instead-of-%s" % (got[0], exp[0])
+        elif v.get("at") == 0 and exp and exp[0] == "err":
+            kind = "error-value-or-line"
+        return "%s:%s:%s:%s" % (prop, p["fam"], kind, vlib.canon_hash(p["src"])[:10])
+    return classify
+
+
+def decide(prop, progs, tag, verd, stats, counts, samples, classify=None, max_steps=20000, batch=150):
+    """run, validate, reproduce candidates on a fresh interpreter, report."""
+    classify = classify or default_classify(prop)
+    outs = run_real(progs, tag)
+    verdicts = validate(progs, outs, tag, stats, max_steps=max_steps, batch=batch)
+    bad = [p for p in progs if verdicts[p["id"]]["v"] == "bad"]
+    if bad:
+        outs2 = run_real(bad, tag + "_re")
+        v2 = validate(bad, outs2, tag + "_re", stats, max_steps=max_steps, batch=batch)
+        for p in bad:
+            v = v2[p["id"]]
+            if v["v"] != "bad":
+                raise vlib.Infra("candidate violation did not reproduce: program %d (%s)" % (p["id"], tag))
+            verd.candidate(classify(p, v, outs2[p["id"]]),
+                           "program (%s) diverges from LuaSem at event %s: expected %s, real %s" % (
+                               p["fam"], v.get("at"), tok_str(v.get("exp")), tok_str(v.get("got"))),
+                           {"program": p, "real": outs2[p["id"]], "verdict": v})
+    c, why = summarize(verdicts)
+    for k in c:
+        counts[k] = counts.get(k, 0) + c[k]
+    for k in why:
+        counts.setdefault("unmod_why", {})
+        counts["unmod_why"][k] = counts["unmod_why"].get(k, 0) + why[k]
+    for p in progs[:2]:
+        samples.append({"family": p["fam"], "src": p["src"][:700], "trace": outs[p["id"]]["emits"][:4],
+                        "outcome": outs[p["id"]]["outcome"][:2], "verdict": verdicts[p["id"]]["v"]})
+    return verdicts, outs
+
+
+def number(fams):
+    """fams: list of (family, Prog, root, src or None) -> program records"""
+    from luagen import render
+    progs = []
+    for i, (fam, p, root, src) in enumerate(fams):
+        if src is None:
+            src = render(p, root)
+        progs.append({"id": i + 1, "fam": fam, "root": root, "nodes": p.nodes[1:], "src": src})
+    return progs
+
+
+def run_families(prop, tier, progs, rule, assumptions, t0, max_steps=20000, extra_cov=None, nontrivial_min_emits=2, classify=None):
+    """the whole check for a LuaSem-validated corpus; returns (rc, verd, verdicts_by_id, outs_by_id)"""
+    verd = vlib.Verdicts(prop)
+    stats = {"states": 0, "transitions": 0}
+    counts, samples = {}, []
+    vlib.build_harness()
+    by = {}
+    for p in progs:
+        by.setdefault(p["fam"], []).append(p)
+    nontrivial = set()
+    allv, allo = {}, {}
+    for fam, ps in by.items():
+        verdicts, outs = decide(prop, ps, fam, verd, stats, counts, samples, classify=classify, max_steps=max_steps)
+        allv.update(verdicts)
+        allo.update(outs)
+        for p in ps:
+            if verdicts[p["id"]]["v"] == "ok" and len(outs[p["id"]]["emits"]) >= nontrivial_min_emits:
+                nontrivial.add(vlib.canon_hash(p["src"]))
+        vlib.log("[%s] family %-8s: %d programs validated" % (prop, fam, len(ps)))
+    total = len(progs)
+    unmod = counts.get("unmod", 0)
+    vlib.log("[%s] %d programs: %s" % (prop, total, json.dumps(counts)))
+    if unmod > 0.05 * total:
+        raise vlib.Infra("out-of-model rate %.1f%% exceeds 5%%" % (100.0 * unmod / total))
+    cov = {
+        "states": stats["states"], "transitions": stats["transitions"],
+        "traces_validated_against_impl": total - unmod,
+        "programs": total, "evaluations": total, "distinct_nontrivial": len(nontrivial),
+        "rule": rule, "verdicts": counts, "samples": samples, "exhaustive": False,
+    }
+    if extra_cov:
+        cov.update(extra_cov)
+    return verd, cov, allv, allo, stats
